@@ -42,7 +42,7 @@ def modelLine (st : DState) (line : String) : DState × String :=
       else if w.startsWith "elect." then Driver.C17.modelE ws
       else if w.startsWith "q." || w.startsWith "tags." then Driver.C19.model ws
       else if w.startsWith "tok." || w.startsWith "key." then Driver.C12.model ws
-      else if w.startsWith "tx." then Driver.C18.model ws
+      else if w.startsWith "tx." || w.startsWith "sop." then Driver.C18.model ws
       else if w.startsWith "push." then Driver.Preview.model ws
       else if w.startsWith "pb." then Driver.Pb.model ws
       else none
